@@ -29,6 +29,15 @@ TRANSLATORS = ["T-hashes", "T-storeconsts"]
 # Genuine defects of halmos reproduced by this check on the unchanged tree.  A failing input
 # whose `sig` matches one of these is printed as KNOWN-FINDING and does not fail the check.
 KNOWN = [
+    {"id": "C08-narrow-constant-key", "property": "C08",
+     "what": "solidity layout: an element of a mapping with non-256-bit (bytes/string) keys reached with a CONCRETE key is hashed concretely; its registered term f_sha3_N(const) has no Concat left, decode returns it undecoded and int_of substitutes the hash back, so the location is a scalar slot, whereas the same element reached with a symbolic key is (slot, [key, 0]): mapping(bytes => uint) m at slot 5; m[k] = v with symbolic 2-byte k, then m[hex'0000'] reads 0 for k = 0 (and a write through the constant is not seen through the symbolic key)",
+     "match": {"feature": "narrow-constant-key", "layout": "solidity"}},
+    {"id": "C08-generic-hash-valued-key", "property": "C08",
+     "what": "generic layout: a mapping key that is itself a keccak hash is replaced by its 513-bit generic encoding, so sizes and values of different access paths coincide: mapping(bytes32 => uint[]) m at slot 0: the length slot of m[keccak(2)] and element 0 of m[2] are both decoded to the 1026-bit term 2*2^770",
+     "match": {"feature": "hash-valued-key", "layout": "generic"}},
+    {"id": "C08-mixed-width-keys-alias", "property": "C08",
+     "what": "solidity layout: the keys of nested mappings are compared as ONE concatenated bit-vector, and the chunk is identified by (slot, number of keys, total key size) only, so two accesses to a mapping with variable-length (bytes/string) keys whose key widths differ but add up to the same total alias when the concatenations coincide: mapping(bytes => mapping(bytes => uint)) m; m[hex'ab'][hex'00cd'] = 0x42; then m[hex'ab00'][hex'cd'] reads 0x42 (EVM: 0)",
+     "match": {"feature": "mixed-width-keys", "layout": "solidity"}},
     {"id": "C08-F4-unregistered-hash-constant", "property": "C08",
      "what": "a storage location written as a hash constant (PUSH32 keccak(p) [+ offset]) that is in neither the precomputed tables nor yet registered by a run-time SHA3 is decoded as a scalar slot; the same location spelled through a run-time hash (or after the hash got registered) is decoded as an array/mapping element, so a write through one spelling is not seen through the other (SSTORE(PUSH32 keccak(100000)); SHA3(100000); SLOAD(same constant) returns 0)",
      "match": {"feature": "unresolved-hash-constant"}},
@@ -78,15 +87,19 @@ def impl_group(group):
     class Ex:
         def __init__(self):
             self.sha3s = KeccakRegistry()
+            self.subst = {}   # path.concretization.substitution: sha3_data appends f_sha3_N(const) == hash
 
         def int_of(self, x, err=None):
-            return int_of(x, err, None)
+            return int_of(x, err, self.subst)
 
     ex = Ex()
     out = {"reg": 0, "sol": [], "gen": []}
     try:
         for h, b, p in group["reg"]:
-            ex.sha3s.register(L.f_sha3(b)(z3.BitVecVal(p, b)), h.to_bytes(32, "big"))
+            expr = L.f_sha3(b)(z3.BitVecVal(p, b))
+            if expr not in ex.sha3s:
+                ex.subst[expr] = z3.BitVecVal(h, 256)
+            ex.sha3s.register(expr, h.to_bytes(32, "big"))
     except AssertionError:
         out["reg"] = -4
         return out
@@ -203,9 +216,10 @@ def gen_group(r, tier, p_unreg=0.06, special=None):
         hi, lo = boundary_slots()
         layout = {hi: ("arr", ("val",)), lo: ("arr", ("val",)), 3: ("map", 256, ("arr", ("val",)))}
     nloc = r.randint(3, 6)
-    reg, locs, tags, allh = [], [], [], set()
+    reg, locs, tags, allh, canons = [], [], [], set(), []
     for _ in range(nloc):
         canon, tg = g.access(layout)
+        canons.append(canon)
         for h, _, _ in L.hashes_in(canon):
             allh.add(h)
         t = L.respell(r, canon, reg, tg, p_const=r.choice([0.0, 0.5, 0.9]), p_unreg=p_unreg)
@@ -219,7 +233,7 @@ def gen_group(r, tier, p_unreg=0.06, special=None):
     for i in range(3 if tier == "quick" else 5):
         dom = [0, 1, 2, 3] if i < 2 else [0, 1, 2, 3, 255, 256, L.W - 1, r.getrandbits(256), r.getrandbits(16)]
         envs.append([r.choice(dom) for _ in range(3)])
-    return {"reg": reg, "locs": locs, "envs": envs, "tags": [sorted(x) for x in tags], "allh": sorted(allh),
+    return {"reg": reg, "locs": locs, "envs": envs, "tags": [sorted(x) for x in tags], "allh": sorted(allh), "canon": canons,
             "flat_add": r.random() < 0.7, "layout_types": {str(k): str(v) for k, v in layout.items()}}
 
 
@@ -239,8 +253,32 @@ def vars_of(t):
 
 
 def key_eq(a, b):
-    """same chunk and same key (decoded observations under one valuation)"""
-    return a == b
+    """same chunk and same key (decoded observations under one valuation): halmos compares
+    concat(keys) as ONE bit-vector, so the component boundaries do not matter"""
+    if a[:4] != b[:4]:
+        return False
+
+    def cat(x):
+        v = 0
+        for bits, val in zip(x[4::2], x[5::2]):
+            v = (v << bits) | val
+        return v
+
+    return cat(a) == cat(b)
+
+
+def width_seq(t):
+    """key widths along the access path of a location term"""
+    k = t[0]
+    if k == "S512":
+        return width_seq(t[2]) + [256]
+    if k == "SN":
+        return width_seq(t[3]) + [t[1]]
+    if k == "S256":
+        return width_seq(t[1]) + ["a"]
+    if k == "Add":
+        return max((width_seq(x) for x in t[1]), key=len, default=[])
+    return []
 
 
 def check_group_spec(group, impl):
@@ -261,10 +299,14 @@ def check_group_spec(group, impl):
                         for t in (locs[i], locs[j]):
                             feats |= const_features(t, group["reg"], group["allh"])
                         for tg in (group["tags"][i], group["tags"][j]):
-                            if "negative-offset-constant" in tg:
-                                feats.add("negative-offset-constant")
+                            for name in ("negative-offset-constant", "narrow-constant-key", "hash-valued-key"):
+                                if name in tg:
+                                    feats.add(name)
                         if any(env[x] >= (1 << 255) for t in (locs[i], locs[j]) for x in vars_of(t)):
                             feats.add("wrapping-offset")
+                        wi, wj = width_seq(group.get("canon", locs)[i]), width_seq(group.get("canon", locs)[j])
+                        if wi != wj and len(wi) == len(wj) and not same:
+                            feats.add("mixed-width-keys")
                         fails.append({"layout": layout, "env": env, "i": i, "j": j, "same_slot": same,
                                       "loc_i": locs[i], "loc_j": locs[j], "decoded_i": a, "decoded_j": b,
                                       "features": sorted(feats)})
@@ -520,8 +562,12 @@ def program_features(prog, envs):
         for t in terms:
             for h, _, _ in L.hashes_in(t):
                 registered.add(h)
-    if "negative-offset-constant" in prog.get("tags", []):
-        feats.add("negative-offset-constant")
+    for name in ("negative-offset-constant", "narrow-constant-key", "hash-valued-key"):
+        if name in prog.get("tags", []):
+            feats.add(name)
+    ws = [width_seq(op[1]) for op in prog["ops"] if op[0] != "sha3"]
+    if any(a != b and len(a) == len(b) and sum(x for x in a if x != "a") == sum(x for x in b if x != "a") for a in ws for b in ws):
+        feats.add("mixed-width-keys")
     return feats
 
 
@@ -537,7 +583,7 @@ def l2_worker(task):
            "calldata": [("c", b"\x12\x34\x56\x78")] + [("s", f"arg{i}", 32) for i in range(prog["nargs"])],
            "static": False, "options": {"storage_layout": prog["layout"]}}
     paths, flags = engine.run_scenario(scn)
-    envs = []
+    envs = [list(e) for e in prog.get("envs", [])]
     for i in range(prog.get("nenv", 6)):
         dom = [0, 1, 2, 3] if i < 4 else [0, 1, 2, 3, 255, 256, L.W - 1, r.getrandbits(256)]
         envs.append([r.choice(dom) for _ in range(prog["nargs"])])
@@ -645,6 +691,14 @@ def corpus_programs():
         P.append({"ops": [("sstore", ("S512", ("V", 0), ("K", 1)), ("V", 2)), ("sstore", ("S512", ("V", 1), ("K", 1)), ("K", 7)),
                           ("sload", ("S512", ("V", 0), ("K", 1))), ("sload", ("S512", ("K", 2), ("K", 1))), ("sload", ("K", 1))],
                   "nargs": 3, "layout": layout, "tags": ["map"], "name": "map-last-write"})
+        m1 = ("SN", 16, ("v", 1), ("SN", 8, ("v", 0), ("K", 1)))
+        m2 = ("SN", 8, ("v", 3), ("SN", 16, ("v", 2), ("K", 1)))
+        P.append({"ops": [("sstore", m1, ("K", 0x42)), ("sload", m2), ("sload", m1)], "nargs": 4, "layout": layout,
+                  "tags": ["narrowmap"], "name": "mixed-width", "envs": [[0xAB, 0x00CD, 0xAB00, 0xCD], [0, 1, 0, 1]]})
+        P.append({"ops": [("sstore", ("SN", 16, ("v", 1), ("K", 5)), ("K", 0x42)), ("sload", ("SN", 16, ("c", 0), ("K", 5)))],
+                  "nargs": 3, "layout": layout, "tags": ["narrowmap", "narrow-constant-key"], "name": "narrow-const", "envs": [[0, 0, 0]]})
+        P.append({"ops": [("sstore", ("S256", ("S512", ("K", 2), ("K", 0))), ("K", 0x42)), ("sload", ("S512", ("S256", ("K", 2)), ("K", 0)))],
+                  "nargs": 3, "layout": layout, "tags": ["map", "arr", "hash-valued-key"], "name": "hash-key"})
         P.append({"ops": [("tstore", ("K", 1), ("K", 5)), ("sstore", ("K", 1), ("K", 6)), ("tload", ("K", 1)), ("sload", ("K", 1)),
                           ("tload", ("Add", [("S256", ("K", 2)), ("V", 0)]))],
                   "nargs": 3, "layout": layout, "tags": ["transient"], "name": "transient-separate"})
